@@ -180,8 +180,6 @@ theorem termResizeTree_step (content : Id → Int → Int → Cell) (screen scre
   have hok := hI.ok
   obtain ⟨rw0, hrw0, hrf, hrr, hrp, hrt, hrl⟩ := hok.rootWin.ex
   rw [hroot] at hrw0; cases hrw0
-  obtain ⟨rw0, hrw0, _, hrv, _, _⟩ := hI.root.ex
-  rw [hroot] at hrw0; cases hrw0
   unfold termResizeTree at h
   simp only [bind, Bind.bind] at h
   have hg : WinTree.get t 0 = .ok root := by unfold WinTree.get; rw [hroot]; simp [hrf]
@@ -249,8 +247,6 @@ theorem termResizeTree_step (content : Id → Int → Int → Cell) (screen scre
     intro x wb hwb ch hch
     obtain ⟨w, hw, _, _, _, _, hcs, _⟩ := hrel x wb hwb
     exact hI.ord x w hw ch (by rw [← hcs]; exact hch)
-  have hro1 : RootOk t1 :=
-    ⟨⟨w1, h1_0, by rw [hw1f]; exact hrf, by rw [hw1v]; exact hrv, by rw [hw1r]; exact hgeomf.1, by rw [hw1r]; exact hgeomf.2.1⟩⟩
   have hpos1 : RootsPositive t1 := by
     intro x wb hwb hr
     obtain ⟨w, hw, hr1, _, _, _, _, _, hx0⟩ := hrel x wb hwb
@@ -271,7 +267,7 @@ theorem termResizeTree_step (content : Id → Int → Int → Cell) (screen scre
     have hwins : t'.wins = t1.wins := by rw [b1, a1]
     have hcore : ∀ x : Id, (t'.wins[x]?).map core = (t1.wins[x]?).map core := by intro x; rw [hwins]
     have hstep1 : RootStep t t1 := Or.inl h1_root
-    refine ⟨⟨treeOk_congr_core hcore hok1, ordered_congr hwins hord1, rootOk_congr_core (hcore 0) hro1,
+    refine ⟨⟨treeOk_congr_core hcore hok1, ordered_congr hwins hord1,
       rootsPositive_congr_core hcore hpos1, b2, b3 (a3 (by rw [h1_root]; exact hI.dinv)), ?_⟩,
       (hstep1.trans a4).trans b4, by rw [hwins, h1_size],
       ⟨w1, by rw [hwins]; exact h1_0, by rw [hw1r]; exact hgeomf.2.2.1, by rw [hw1r]; exact hgeomf.2.2.2⟩,
@@ -285,6 +281,12 @@ theorem termResizeTree_step (content : Id → Int → Int → Cell) (screen scre
         exact ⟨qwb, hqwb, by rw [hcs]; exact hm⟩)⟩
     intro L C w l c ho
     rw [ownerAt_congr t' t1 hwins] at ho
+    -- under a hidden root nothing is owned
+    cases hrv : root.isVisible with
+    | false => rw [ownerAt_none_of_hidden t1 w1 h1_0 (by rw [hw1v]; exact hrv)] at ho; cases ho
+    | true =>
+    have hro1 : RootOk t1 :=
+      ⟨⟨w1, h1_0, by rw [hw1f]; exact hrf, by rw [hw1v]; exact hrv, by rw [hw1r]; exact hgeomf.1, by rw [hw1r]; exact hgeomf.2.1⟩⟩
     obtain ⟨wr, hwr, hL0, hL1, hC0, hC1⟩ := ownerAt_some_memb t1 hro1 L C _ ho
     rw [h1_0] at hwr; cases hwr
     rw [hw1r, hgeomf.2.2.1] at hL1
